@@ -251,6 +251,8 @@ struct FontJob {
 
 const PPEM_DELTA: [f32; 6] = [12.0, 20.0, 30.0, 45.0, 70.0, 65540.0];
 const PPEM_OTHER: [f32; 2] = [16.0, 3000.0];
+/// the operand sweep also runs at sizes whose ppem exceeds 2^25 / saturates (MPPEM, MPS, scaling ops)
+const PPEM_SWEEP: [f32; 4] = [16.0, 65535.0, 4.0e7, 3.0e9];
 
 fn font_of(place: char, setter: &Setter, prep: Vec<u8>, progs: Vec<Vec<u8>>, delta: bool) -> FontJob {
     let fpgm: Vec<u8> = vec![PUSHB1, 0, 0x2C, 0x21, 0x2D];
@@ -301,6 +303,49 @@ pub fn run(cfg: &Config, ex: &mut Explorer) {
             }
         }
     }
+    // ---- operand sweep: every opcode with each VALUES value as its top / second operand
+    // (the other operands nominal), glyph and prep placement
+    let sweep = Setter { name: "operand-sweep".into(), code: vec![], writes: 0 };
+    let mut progs: Vec<Vec<u8>> = vec![];
+    let mut names: Vec<String> = vec![];
+    for op in 0u16..=255 {
+        let op = op as u8;
+        if matches!(op, 0x40 | 0x41 | 0xB0..=0xBF) {
+            continue; // pushes take inline data, not stack operands
+        }
+        for x in VALUES {
+            for form in 0..3 {
+                let args: Vec<i32> = match form {
+                    0 => vec![1, 1, 1, 1, x],
+                    1 => vec![1, 1, 1, x, 1],
+                    _ => vec![x, x, x, x, x],
+                };
+                let mut code = prog(&args, op);
+                match op {
+                    0x58 => code.extend_from_slice(&[0x1B, 0x59]), // IF .. ELSE EIF
+                    0x2C | 0x89 => code.push(0x2D),                 // FDEF / IDEF .. ENDF
+                    _ => {}
+                }
+                progs.push(code);
+                names.push(format!("{op:#04x}{args:?}"));
+            }
+        }
+    }
+    let n_sweep = progs.len();
+    for chunk in progs.chunks(32) {
+        let mut j = font_of('a', &sweep, noop_prep.clone(), chunk.to_vec(), false);
+        j.ppems = &PPEM_SWEEP;
+        jobs.push(j);
+    }
+    if thorough {
+        for p in &progs {
+            jobs.push(font_of('c', &sweep, p.clone(), vec![], false));
+        }
+    } else {
+        for p in progs.iter().step_by(3) {
+            jobs.push(font_of('c', &sweep, p.clone(), vec![], false));
+        }
+    }
     let n_fonts = jobs.len();
     let done = parallel(&jobs, worker_threads(), |job, ex| {
         let label = || job.label.clone();
@@ -309,7 +354,7 @@ pub fn run(cfg: &Config, ex: &mut Explorer) {
     });
     ex.absorb(done);
     ex.notes.push(format!(
-        "bytecode matrix: {} setter instances x {} consumer instances; {pairs_rel} related pairs (all values) + {pairs_sampled} sampled unrelated pairs, placements a/b/c, {n_fonts} fonts",
+        "bytecode matrix: {} setter instances x {} consumer instances; {pairs_rel} related pairs (all values) + {pairs_sampled} sampled unrelated pairs, placements a/b/c; operand sweep {n_sweep} programs (every opcode x VALUES as top / second / all operands); {n_fonts} fonts",
         ss.len(),
         cs.len()
     ));
